@@ -658,4 +658,174 @@ def renameValuesT (w : TWorld) (pairs : List (Nat × String)) : TWorld × Bool :
     let wr := applyRename w.toWorld ordered
     ({ w with toWorld := wr.1, tname := tensorAssign w ordered tl.1 }, wr.2)
 
+/-! ## Part B+ — NameFixPass with an arbitrary `NameGenerator` and with the backing tensors
+
+`NameFixPass(name_generator=...)` (`naming.py:73-86`) asks the generator for the *preferred* name of
+an unnamed object (`_assign_value_name`, `_assign_node_name`) and for the base name of a duplicate
+(`_fix_duplicate_*_name`); `_find_and_record_next_unique_name` then suffixes it.  A generator is an
+arbitrary Python object; what it answers for an object is modelled as a function of the object
+(creation index) and of the name the object carries at that moment.  Every value is handed to the
+generator at most once per call (`seen_values`) and every node once per occurrence, so the answers of
+a *stateful* generator during one run are such a function too (the harness records them and the model
+is run on the recorded table; the model's own sequence of generator calls `glog` must be the
+recorded one).
+
+`Value.name = new` writes the name through to the backing tensor (`_core.py`, `Value.name` setter,
+"Rename the backing constant tensor") after the initializer guards and before anything else; a
+tensor object may refuse (`frozen`), then the setter raises with nothing changed and the pass stops
+in the middle. -/
+
+structure NameGen where
+  /-- `generate_value_name(value)` -/
+  v : Nat → Option String → String
+  /-- `generate_node_name(node)` -/
+  n : Nat → Option String → String
+
+/-- `SimpleNameGenerator`: `value.name or "v"`, `node.name or "node"` (`naming.py:33-42`) -/
+def simpleGen : NameGen :=
+  { v := fun _ nm => if truthy nm then nm.getD "" else "v"
+    n := fun _ nm => if truthy nm then nm.getD "" else "node" }
+
+/-- the guards of the `Value.name` setter, which raise before anything is changed: an initializer
+cannot get the empty name or a name that keys another initializer of its graph -/
+def World.nameGuard (w : World) (v : Nat) (new : String) : Bool :=
+  match w.initOf v with
+  | none => false
+  | some g => new == "" || (match (w.dicts g).lookup new with | some u => u != v | none => false)
+
+/-- `Value.name = new` with the tensor write-through.  Order of effects as in the setter: equal
+name -> return; guards; `self._const_value.name = value` (may raise: nothing changed yet); then the
+name and the re-keying (`World.setName`, whose own guards have passed). -/
+def TWorld.setNameT (w : TWorld) (v : Nat) (new : String) : TWorld × Bool :=
+  if w.vname v = some new then (w, false) else
+  if w.toWorld.nameGuard v new then (w, true) else
+  match w.constOf v with
+  | some t =>
+    if w.frozen t then (w, true)
+    else
+      let r := w.toWorld.setName v new
+      ({ w with toWorld := r.1, tname := upd w.tname t (some new) }, r.2)
+  | none =>
+    let r := w.toWorld.setName v new
+    ({ w with toWorld := r.1 }, r.2)
+
+/-- `FixSt` plus the tensors and the log of generator calls (`true` = node) in call order, newest
+first -/
+structure FixStX extends FixSt where
+  constOf : Nat → Option Nat
+  tname : Nat → Option String
+  frozen : Nat → Bool
+  glog : List (Bool × Nat) := []
+
+def FixStX.tw (st : FixStX) : TWorld :=
+  { toWorld := st.toWorld, constOf := st.constOf, tname := st.tname, frozen := st.frozen }
+
+/-- `value.name = _find_and_record_next_unique_name(p, ...)` with `p` the generator's answer -/
+def renameToX (st : FixStX) (v : Nat) (p : String) : FixStX :=
+  let r := findUnique p (topOf st.vstack) st.resV (st.vcnt p)
+  let wr := st.tw.setNameT v r.1
+  let st := { st with vcnt := updS st.vcnt p r.2, vstack := pushTop st.vstack r.1, glog := (false, v) :: st.glog }
+  if wr.2 then
+    { st with toWorld := wr.1.toWorld, constOf := wr.1.constOf, tname := wr.1.tname, frozen := wr.1.frozen, raised := true }
+  else
+    { st with toWorld := wr.1.toWorld, constOf := wr.1.constOf, tname := wr.1.tname, frozen := wr.1.frozen,
+              modified := true, seen := v :: st.seen }
+
+/-- `_process_value` with the generator `gen` -/
+def processValueX (gen : NameGen) (st : FixStX) (v : Nat) : FixStX :=
+  if st.raised then st else
+  if st.seen.contains v then st else
+  if !truthy (st.vname v) then renameToX st v (gen.v v (st.vname v))
+  else
+    let s := (st.vname v).getD ""
+    if !(topOf st.vstack).contains s then { st with vstack := pushTop st.vstack s, seen := v :: st.seen }
+    else renameToX st v (gen.v v (st.vname v))
+
+/-- `_assign_node_name` / `_fix_duplicate_node_name` with the generator `gen` -/
+def fixNodeNameX (gen : NameGen) (st : FixStX) (n : Nat) : FixStX :=
+  if st.raised then st else
+  let top := topOf st.nstack
+  if !truthy (st.nname n) then
+    let p := gen.n n (st.nname n)
+    let r := findUnique p top st.resN (st.ncnt p)
+    { st with ncnt := updS st.ncnt p r.2, nstack := pushTop st.nstack r.1,
+              nname := upd st.nname n (some r.1), modified := true, glog := (true, n) :: st.glog }
+  else
+    let s := (st.nname n).getD ""
+    if !top.contains s then { st with nstack := pushTop st.nstack s }
+    else
+      let p := gen.n n (st.nname n)
+      let r := findUnique p top st.resN (st.ncnt p)
+      { st with ncnt := updS st.ncnt p r.2, nstack := pushTop st.nstack r.1,
+                nname := upd st.nname n (some r.1), modified := true, glog := (true, n) :: st.glog }
+
+def processValuesX (gen : NameGen) (st : FixStX) (vs : List Nat) : FixStX := vs.foldl (processValueX gen) st
+
+def enterGraphX (gen : NameGen) (st : FixStX) (g : Nat) (hasInits : Bool) (ins outs bouts : List Nat) : FixStX :=
+  if st.raised then st else
+  let st := { st with vstack := topOf st.vstack :: st.vstack, nstack := [] :: st.nstack }
+  let st := processValuesX gen st ins
+  let st := processValuesX gen st outs
+  let st := if hasInits then processValuesX gen st ((st.dicts g).map (·.2)) else st
+  processValuesX gen st bouts
+
+def exitGraphX (st : FixStX) : FixStX :=
+  if st.raised then st else { st with vstack := st.vstack.tail, nstack := st.nstack.tail }
+
+def visitNodeX (gen : NameGen) (st : FixStX) (n : Nat) (ins : List (Option Nat)) (outs : List Nat) : FixStX :=
+  processValuesX gen (fixNodeNameX gen st n) (nodeVals ins outs)
+
+def runTrX (gen : NameGen) : Tr → FixStX → FixStX
+  | .nil, st => st
+  | .node n ins outs subs rest, st =>
+    let st := visitNodeX gen st n ins outs
+    let st := runTrX gen subs st
+    runTrX gen rest st
+  | .graph g isG ins outs body rest, st =>
+    let st := enterGraphX gen st g isG ins outs (bodyOuts body)
+    let st := enterGraphX gen st g isG ins outs (bodyOuts body)
+    let st := runTrX gen body st
+    let st := exitGraphX (exitGraphX st)
+    runTrX gen rest st
+
+/-- the state `_fix_graph_names` starts from -/
+def initX (w : TWorld) (t : Top) (glog : List (Bool × Nat)) : FixStX :=
+  let res := collectTr w.toWorld t.tr ([], [])
+  { toWorld := w.toWorld, resV := res.1, resN := res.2, constOf := w.constOf, tname := w.tname, frozen := w.frozen,
+    glog := glog }
+
+/-- `_fix_graph_names(graph_like)` with generator and tensors -/
+def fixTopX (gen : NameGen) (w : TWorld) (t : Top) (glog : List (Bool × Nat) := []) : FixStX :=
+  let st := initX w t glog
+  let st := enterGraphX gen st t.gid t.isGraph t.ins t.outs (bodyOuts t.body)
+  let st := runTrX gen t.body st
+  exitGraphX st
+
+/-- result of `NameFixPass(name_generator=gen).call` -/
+structure XRes where
+  w : TWorld
+  modified : Bool
+  raised : Bool
+  glog : List (Bool × Nat)
+
+/-- `NameFixPass.call` with generator and tensors -/
+def fixModelX (gen : NameGen) (w : TWorld) (glog : List (Bool × Nat) := []) : List Top → XRes
+  | [] => ⟨w, false, false, glog⟩
+  | t :: ts =>
+    let st := fixTopX gen w t glog
+    if st.raised then ⟨st.tw, st.modified, true, st.glog⟩
+    else
+      let r := fixModelX gen st.tw st.glog ts
+      ⟨r.w, st.modified || r.modified, r.raised, r.glog⟩
+
+/-- executable form of `InitsOk` on the id range of a request (`nv` values, `ng` graphs) -/
+def initsOkB (w : World) (nv ng : Nat) : Bool :=
+  (List.range ng).all (fun g =>
+    (w.dicts g).all (fun e => w.vname e.2 == some e.1 && e.1 != "" && w.initOf e.2 == some g)
+    && decide ((w.dicts g).map (·.1)).Nodup)
+  && (List.range nv).all (fun v => match w.initOf v with
+      | some g => (w.dicts g).any (fun e => e.2 == v)
+      | none => true)
+
+
 end IrVerif.Names
